@@ -110,7 +110,7 @@ def run(prop, tier, seed):
             a, b = vlib.run_of_record(recs, idx)
             payload = dict(kind=driver, driver_args=[str(x) for x in args], record_index=idx, run_header=recs[a],
                            trace=[r for r in recs[a:b] if r.get("t") != "tap"][:400], violated_at=recs[idx - 1])
-            if p == prop:
+            if prop in p.split("+"):
                 verdict.violation(why, payload)
             else:
                 verdict.note(f"violation of {p} observed while checking {prop}: {why} (batch {bi}, seed {s}, record {idx})")
@@ -121,7 +121,7 @@ def run(prop, tier, seed):
         for (idx, p, why) in bres["violations"]:
             if brecs is None:
                 brecs = vlib.read_ndjson(bpath)
-            if p == prop or why.startswith("panic"):
+            if prop in p.split("+") or why.startswith("panic"):
                 a, b = vlib.run_of_record(brecs, idx)
                 verdict.violation(why, dict(kind=driver + "-broker", driver_args=[str(x) for x in args], record_index=idx, trace=brecs[a:b]))
             else:
@@ -170,7 +170,7 @@ def replay(prop, path, seed):
         res = vlib.tlc_trace("Trace_Client.tla", "Trace_Client.cfg", cpath)
         recs = vlib.read_ndjson(cpath)
         for (idx, p, why) in res["violations"]:
-            if p == prop:
+            if prop in p.split("+"):
                 a, b = vlib.run_of_record(recs, idx)
                 verdict.violation(why, dict(kind=driver, driver_args=args, record_index=idx,
                                             trace=[r for r in recs[a:b] if r.get("t") != "tap"][:400]))
